@@ -25,23 +25,11 @@ Definition enc_segs (sg : list (N * N * list rcd)) : list (N * N * bytes) :=
 
 Definition no_read_fault (rs : list N) : Prop := Forall (fun k => k <> R_ERR) rs.
 
-(* handlers that never ABANDON a pending read: every opcode of [script_ok] except 11 (a read future polled once and
-   dropped).  The hypothesis is needed (ex2p_abandoned_read_deadlocks in Async/PeerProofs2.v): Request::poll_output may
-   return Pending after it has written only PART of a management reply; a handler that drops the read future at that
-   point and then writes through a StreamWriter puts its record in the middle of the cut reply (the model's writer
-   does not look at Request.lock), the client can never count that reply and waits for it forever. *)
-Inductive no_abandoned_read : list N -> Prop :=
-| NA_nil : no_abandoned_read []
-| NA_read n rest : no_abandoned_read rest -> no_abandoned_read (1 :: n :: rest)
-| NA_read_all rest : no_abandoned_read rest -> no_abandoned_read (2 :: rest)
-| NA_fill k rest : no_abandoned_read rest -> no_abandoned_read (3 :: k :: rest)
-| NA_set s rest : no_abandoned_read rest -> no_abandoned_read (4 :: s :: rest)
-| NA_writeable rest : no_abandoned_read rest -> no_abandoned_read (5 :: rest)
-| NA_write s n rest : no_abandoned_read (drop n rest) -> no_abandoned_read (6 :: s :: n :: rest)
-| NA_flush s rest : no_abandoned_read rest -> no_abandoned_read (7 :: s :: rest)
-| NA_exit d c rest : no_abandoned_read (8 :: d :: c :: rest)
-| NA_fail k rest : no_abandoned_read (9 :: k :: rest)
-| NA_readq n rest : no_abandoned_read rest -> no_abandoned_read (10 :: n :: rest).
+(* handlers that never ABANDON a pending read: [no_abandoned_read], defined in Async/ConnTotal.v (every opcode of [script_ok]
+   except 11, a read future polled once and dropped).  The hypothesis is needed (ex2p_abandoned_read_deadlocks in
+   Async/PeerProofs2.v, known finding F6): Request::poll_output may return Pending after it has written only PART of a
+   management reply, with Request.lock held; a handler that drops the read future at that point and then writes through a
+   StreamWriter waits for that lock for ever, while the client waits for the rest of the reply. *)
 
 (* MAIN: on a fault-free transport, for every buffer size, every such client, every list of well-formed handler
    scripts that await the reads they start (all handler behaviours of the family but the abandoned poll of op 11:
